@@ -49,7 +49,8 @@ def lean_phase(spec, tier, res):
     bad_ax = {n: a for n, a in bad_ax.items() if a}
     info["bad_axioms"] = bad_ax
     info["missing"] = [n for n in names if n not in axioms]
-    info["forbidden"] = leanaudit.scan_forbidden(leanaudit.lean_sources())
+    info["forbidden"] = leanaudit.scan_forbidden(leanaudit.lean_sources(module))
+    info["sources"] = [os.path.relpath(p, LEAN) for p in leanaudit.lean_sources(module)]
     info["discharged"] = [n for n in names if n in axioms and n not in bad_ax]
     if tier == "thorough" and ok:
         okc, outc = leanaudit.leanchecker(module)
@@ -226,6 +227,7 @@ def run_check(prop, spec, tier, seed):
     cov["trusted_base"] = spec.get("trusted_base", []) + [
         "Lean 4.33.0 kernel; axioms used per theorem listed under axioms_per_theorem (subset of propext, Classical.choice, Quot.sound)",
         "correspondence harness (/verif/go/harness, /verif/lean/Driver, /verif/checklib) ties the hand-written model to /repo on the inputs run"]
+    cov["lean_sources_audited"] = lean.get("sources", [])
     cov["theorems"] = lean["theorems"]
     cov["axioms_per_theorem"] = lean["axioms"]
     cov["partial_theorems"] = [n for n in lean["theorems"] if n.endswith("_partial")]
